@@ -3,7 +3,10 @@
 package lime
 
 import (
+	"context"
+	"fmt"
 	"net"
+	"sync"
 	"sync/atomic"
 )
 
@@ -52,6 +55,65 @@ func (c *channel) VerifTransport() Transport {
 // matcher exactly as the receiver goroutine does.
 func (c *channel) VerifTrySubmitCommandResult(respCmd *ResponseCommand) bool {
 	return c.trySubmitCommandResult(respCmd)
+}
+
+// verifMultiTransport is an in-process transport that can be switched to either
+// of two compressions and two encryptions; it only records what it was switched
+// to (nothing is compressed or encrypted). None of the library's transports can
+// change its compression, so this is the only way to drive the code that applies
+// a confirmed compression/encryption pair through all its branches.
+type verifMultiTransport struct {
+	*inProcessTransport
+	mu   sync.Mutex
+	comp SessionCompression
+	enc  SessionEncryption
+}
+
+// VerifMultiTransportPair returns two connected transports of that kind.
+func VerifMultiTransportPair(bufferSize int) (client Transport, server Transport) {
+	c, s := newInProcessTransportPair(InProcessAddr("verif-multi"), bufferSize)
+	return &verifMultiTransport{inProcessTransport: c, comp: SessionCompressionNone, enc: SessionEncryptionNone},
+		&verifMultiTransport{inProcessTransport: s, comp: SessionCompressionNone, enc: SessionEncryptionNone}
+}
+
+func (t *verifMultiTransport) SupportedCompression() []SessionCompression {
+	return []SessionCompression{SessionCompressionNone, SessionCompressionGzip}
+}
+
+func (t *verifMultiTransport) Compression() SessionCompression {
+	t.mu.Lock()
+	defer t.mu.Unlock()
+	return t.comp
+}
+
+func (t *verifMultiTransport) SetCompression(_ context.Context, c SessionCompression) error {
+	if c != SessionCompressionNone && c != SessionCompressionGzip {
+		return fmt.Errorf("compression '%v' is not supported", c)
+	}
+	t.mu.Lock()
+	t.comp = c
+	t.mu.Unlock()
+	return nil
+}
+
+func (t *verifMultiTransport) SupportedEncryption() []SessionEncryption {
+	return []SessionEncryption{SessionEncryptionNone, SessionEncryptionTLS}
+}
+
+func (t *verifMultiTransport) Encryption() SessionEncryption {
+	t.mu.Lock()
+	defer t.mu.Unlock()
+	return t.enc
+}
+
+func (t *verifMultiTransport) SetEncryption(_ context.Context, e SessionEncryption) error {
+	if e != SessionEncryptionNone && e != SessionEncryptionTLS {
+		return fmt.Errorf("encryption '%v' is not supported", e)
+	}
+	t.mu.Lock()
+	t.enc = e
+	t.mu.Unlock()
+	return nil
 }
 
 // VerifWebsocketConn returns the network connection under a WebSocket transport
